@@ -344,6 +344,16 @@ func genPointer(cur interface{}, forAdd bool, odd bool) string {
 			return l.ptr + "/" + escTok(keyPool[rng.Intn(len(keyPool))])
 		case []interface{}:
 			n := len(x)
+			if chance(0.04) {
+				// the ends of the int64 range (strconv.Atoi accepts them; -x overflows for the least one)
+				// (only the negative end: a huge positive index under EnsurePathExistsOnAdd asks for that
+				// much padding, which the property excludes)
+				t := pick("-9223372036854775808", "-9223372036854775807", "-9223372036854775808")
+				if chance(0.3) {
+					return l.ptr + "/" + t + "/" + pick("0", "a", "-")
+				}
+				return l.ptr + "/" + t
+			}
 			return l.ptr + "/" + pick(strconv.Itoa(n), "-", strconv.Itoa(n+1), "-1", strconv.Itoa(-n), strconv.Itoa(-n-1), strconv.Itoa(-n-2), "0", strconv.Itoa(rng.Intn(n+1)), "x")
 		default:
 			return l.ptr + "/" + pick("a", "0", "-")
@@ -621,3 +631,29 @@ func sortStrings(s []string) {
 		}
 	}
 }
+
+// sharedSubtreePair: a document and a patch that hold, under the same name, byte-for-byte the same
+// object text with null members in it (a client sending a sub-object back unchanged)
+func sharedSubtreePair(g genOpts) ([]byte, []byte) {
+	inner := pick(`"n":null`, `"n": null`, `"x":{"n":null,"y":1}`, `"x":[null],"n":null`, `"n":null,"m":null`)
+	sub := "{" + inner
+	if chance(0.5) {
+		sub += "," + spellStr(keyPool[rng.Intn(len(keyPool))], g) + ":" + genValue(g, 1)
+	}
+	sub += "}"
+	k := spellStr(pick("a", "b", "k", "q"), g)
+	other := func() string {
+		if chance(0.5) {
+			return ""
+		}
+		return "," + spellStr(pick("o1", "o2", "c"), g) + ":" + genValue(g, 1)
+	}
+	doc := "{" + k + ":" + sub + other() + "}"
+	patch := "{" + k + ":" + sub + other() + "}"
+	if chance(0.3) { // one level deeper
+		doc = `{"w":` + doc + "}"
+		patch = `{"w":` + patch + "}"
+	}
+	return []byte(doc), []byte(patch)
+}
+
